@@ -1,4 +1,5 @@
 import Reclass.Props.C15
+import Reclass.Props.C15b
 open Reclass
 #print axioms Reclass.C15.abs_id_on_absolute
 #print axioms Reclass.C15.dots_decomposition
@@ -14,3 +15,22 @@ open Reclass
 #print axioms Reclass.C15.ofSrc_classes_absolute
 #print axioms Reclass.C15.ofSrc_classes_eq
 #print axioms Reclass.C15.ofSrc_twin
+#print axioms Reclass.C15.ofSrc_map_entries
+#print axioms Reclass.C15.twinEntryAll_of_not_dot
+#print axioms Reclass.C15.twinEntry_of_not_dot
+#print axioms Reclass.C15.twinEntry_eq_abs
+#print axioms Reclass.C15.twinEntryAll_eq_abs
+#print axioms Reclass.C15.abs_twinEntryAll
+#print axioms Reclass.C15.abs_twinEntry
+#print axioms Reclass.C15.ofSrc_twinSrc
+#print axioms Reclass.C15.twinOK_of_forall
+#print axioms Reclass.C15.findEntity_twin
+#print axioms Reclass.C15.readClass_twinBy
+#print axioms Reclass.C15.renderNode_twinBy
+#print axioms Reclass.C15.renderNode_twin
+#print axioms Reclass.C15.renderNode_twinAll
+#print axioms Reclass.C15.twinInv_class_files
+#print axioms Reclass.C15.twinInv_node_files
+#print axioms Reclass.C15.renderNode_twinRaw
+#print axioms Reclass.C15.abs_head_ne_dot
+#print axioms Reclass.C15.absStable_of_locs
